@@ -264,9 +264,72 @@ func runDCluster(c DCase, o *pbt.Obs) *pbt.Failure {
 	vec := func(k, ver int) []float32 { return []float32{float32(k + 1), float32(ver)} }
 	// judge: with every member up and settled, every hosting member's index holds exactly what the model says for
 	// every key whose writes all ended with a verdict; Len and a wide search through every member agree with it
+	// degraded: with a member down, a search or a size request through a live member either fails or covers every
+	// partition - a success while some partition has no live replica would be a partial answer with a success status
+	degraded := func(where string) *pbt.Failure {
+		via := pickVia(0)
+		if via < 0 {
+			return nil
+		}
+		ds := cl.Dataset(via, dsId)
+		if ds == nil {
+			return nil
+		}
+		orphan := -1
+		for p := 0; p < c.P; p++ {
+			live := false
+			for _, id := range ds.VerifPartitionNodeIds(p) {
+				for i := 0; i < c.Members; i++ {
+					if cl.Nodes[i].Id == id && up(i) {
+						live = true
+					}
+				}
+			}
+			if !live {
+				orphan = p
+			}
+		}
+		for _, viaI := range []int{pickVia(0), pickVia(1), pickVia(2)} {
+			d := cl.Dataset(viaI, dsId)
+			if d == nil {
+				continue
+			}
+			ctx, cancel := context.WithTimeout(context.Background(), 500*time.Millisecond)
+			res, err := d.Search(ctx, []float32{0, 0}, 64)
+			cancel()
+			if err == nil && orphan >= 0 {
+				return pbt.Failf("C03:partial-search-succeeds", "%s: a search through member %d succeeds (%d items) although every replica of partition %d %v is down; history: %s", where, viaI, len(res), orphan, ds.VerifPartitionNodeIds(orphan), c.String())
+			}
+			if err == nil {
+				o.Label("degraded-search-succeeded")
+				seen := map[uuid.UUID]bool{}
+				for _, it := range res {
+					k := -1
+					for j := 0; j < dKeys; j++ {
+						if dKey(j) == it.Id {
+							k = j
+						}
+					}
+					if k < 0 || seen[it.Id] || (!m.tainted[k] && !m.st[k].present && insertOnly) {
+						return pbt.Failf("C03:search-returns-dead-item", "%s: a search through member %d with a member down returns %s (unknown, twice, or never written); history: %s", where, viaI, gen.IDHex(it.Id), c.String())
+					}
+					seen[it.Id] = true
+				}
+			} else {
+				o.Label("degraded-search-failed-loudly")
+			}
+			ctx, cancel = context.WithTimeout(context.Background(), 500*time.Millisecond)
+			n, err := d.Len(ctx)
+			cancel()
+			if err == nil && orphan >= 0 {
+				return pbt.Failf("C03:partial-size-succeeds", "%s: Len through member %d succeeds (%d) although every replica of partition %d %v is down; history: %s", where, viaI, n, orphan, ds.VerifPartitionNodeIds(orphan), c.String())
+			}
+		}
+		return nil
+	}
 	judge := func(where string) *pbt.Failure {
 		if !allUp() {
-			return nil
+			return degraded(where)
 		}
 		if !settle(6000) {
 			o.Label("read-skipped-not-settled")
@@ -739,7 +802,7 @@ func runDCluster(c DCase, o *pbt.Obs) *pbt.Failure {
 func TestAckedWritesOnCluster(t *testing.T) {
 	pbt.Run(t, pbt.Prop[DCase]{
 		ID: "C03", Name: "TestAckedWritesOnCluster",
-		Rule:    "rapid-generated histories on 1-3 simulated nodes wired like server.go (package ctl: real zero groups, shared group, NodesManager, allocator, DatasetManager, partition raft groups loaded by the allocator): a dataset with 1-3 partitions and replication factor 1-3 is created through the DatasetManager API; single and batch writes over 10 keys enter through the Dataset API of any live member (proxied through in-memory DataManager clients); members are killed between two writes or a generated number of ticks into a write, and started again over their stores, one at a time (the others keep writing) or all at once; partition groups snapshot and compact; oracle: a reference map of the writes that ended with a verdict (acknowledged, or refused as existing/not found - a refusal must agree with the map); whenever all members are up and every replica has applied its leader's commit index, every hosting member's index holds exactly the map's value for every key without an abandoned write, Len through every member is the number of live keys, and a k=64 search through every member returns live keys only, none twice, at least one if any is live, and all of them while the history is insert-only; non-trivial = >=3 acknowledged writes, >=1 judged read and a member restart; distinct = distinct case JSON",
+		Rule:    "rapid-generated histories on 1-3 simulated nodes wired like server.go (package ctl: real zero groups, shared group, NodesManager, allocator, DatasetManager, partition raft groups loaded by the allocator): a dataset with 1-3 partitions and replication factor 1-3 is created through the DatasetManager API; single and batch writes over 10 keys enter through the Dataset API of any live member (proxied through in-memory DataManager clients); members are killed between two writes or a generated number of ticks into a write, and started again over their stores, one at a time (the others keep writing) or all at once; partition groups snapshot and compact; oracle: a reference map of the writes that ended with a verdict (acknowledged, or refused as existing/not found - a refusal must agree with the map); whenever all members are up and every replica has applied its leader's commit index, every hosting member's index holds exactly the map's value for every key without an abandoned write, with a member down a search or Len through a live member fails unless every partition has a live replica; Len through every member is the number of live keys, and a k=64 search through every member returns live keys only, none twice, at least one if any is live, and all of them while the history is insert-only; non-trivial = >=3 acknowledged writes, >=1 judged read and a member restart; distinct = distinct case JSON",
 		Gen:     genDCase,
 		Check:   checkDCluster,
 		Journal: true,
